@@ -685,8 +685,8 @@ def run(tier, seed, replay=None):
     rep.assumptions = [
         "theorems: lambda, mu, psi > 0, rho in [0,1], epoch durations >= 0, heights >= 0 (psi = 0 with rho-sampling only "
         "is exercised by the correspondence and RK4 checks, not by the theorems)",
-        "C09_refinement_invariance_partial: whole density for one epoch cut in two, no removal probability; the "
-        "p/q part (C09_split_epoch) for any number of epochs",
+        "C09_refinement_invariance: whole density, any number of epochs, contiguous admissible skyline whose first "
+        "epoch starts at a time >= 0",
         "a node / tip lying exactly on an epoch boundary has probability zero under the model: the density there is "
         "a convention; the model takes the convention under which refinement invariance holds (tip: epoch ending at "
         "the boundary; node: the code's, epoch starting at the boundary)",
